@@ -1,6 +1,7 @@
 // C05 — every label reference assembles to the address of its label (and, compiled with -DHEXMC_C17 via c17.cpp,
 // C17 — listings agree with the binary they describe, on the same corpus).
 #include "common/mc.hpp"
+#include <sys/wait.h>
 #include "common/refisa.hpp"
 #include "common/asmgen.hpp"
 #include "adapters/tools.hpp"
@@ -115,7 +116,7 @@ static std::vector<uint32_t> gapSet(int level) {
 }
 
 int main(int argc, char **argv) {
-  ctx = parse_args(PROP, argc, argv, 150, 1500);
+  ctx = parse_args(PROP, argc, argv, 600, 3000);
   Report rep; rep.ctx = ctx;
   if (!ctx.replayPath.empty()) {
     JV v; if (!jparse(slurp(ctx.replayPath), v)) harness_fail("cannot parse replay");
@@ -254,9 +255,46 @@ int main(int argc, char **argv) {
     rep.st.merge(r.stats);
     if (!r.complete || rep.st.c["x_programs_skipped_deadline"]) rep.caps.push_back("X programs: deadline");
   }
+  // ---- the built executables: listing on stdout, image once into a regular file and once into a pipe (a non-seekable output): the two images must be the same bytes and agree with the listing
+  if (getenv("HEX_CLI") && !ctx.expired()) {
+    std::string cli = getenv("HEX_CLI"), dir = ctx.scratch + "/proc"; mkdir(dir.c_str(), 0755);
+    auto capture = [&](const std::vector<std::string> &argv, std::string &out) -> int {
+      int pfd[2]; if (pipe(pfd)) return -100;
+      pid_t p = fork();
+      if (p == 0) { if (chdir(dir.c_str())) _exit(126); dup2(pfd[1], 1); close(pfd[0]); close(pfd[1]); if (!freopen("/dev/null", "wb", stderr)) _exit(126); std::vector<char *> a; for (auto &x : argv) a.push_back((char *)x.c_str()); a.push_back(nullptr); execv(a[0], a.data()); _exit(127); }
+      close(pfd[1]); out.clear(); char buf[65536]; ssize_t n; while ((n = read(pfd[0], buf, sizeof buf)) > 0) out.append(buf, n); close(pfd[0]);
+      int status = 0; waitpid(p, &status, 0); return WIFEXITED(status) ? WEXITSTATUS(status) : -WTERMSIG(status);
+    };
+    struct PF { std::string name, path; bool isAsm; };
+    std::vector<PF> files;
+    for (const char *n : {"exit0.S", "exit255.S", "hello.S", "hello_procedure.S", "xhexb.S"}) files.push_back({n, ctx.repo + "/tests/asm/" + n, true});
+    for (const char *n : {"bubblesort.x", "fib.x", "hello_prints.x", "hello_putval.x", "mul2.x", "printhex.x", "strlen.x", "exit.x", "xhexb.x"}) files.push_back({n, ctx.repo + "/tests/x/" + n, false});
+    { xgen::Corpus XC; XC.build(false); int k = 0; for (uint64_t i = 0; i < XC.total; i += XC.total / 24 + 1) { std::string p = dir + "/gen" + std::to_string(k++) + ".x"; spit(p, XC.make(i, nullptr, nullptr)); files.push_back({"corpus", p, false}); } }
+    Stats st;
+    for (auto &f : files) {
+      std::string tool = cli + (f.isAsm ? "/hexasm" : "/xcmp"), lst, piped, dummy;
+      int r1 = capture({tool, f.path, f.isAsm ? "--instrs" : "-S"}, lst);
+      unlink((dir + "/o.bin").c_str());
+      int r2 = capture({tool, f.path, "-o", "o.bin"}, dummy);
+      int r3 = capture({tool, f.path, "-o", "/dev/stdout"}, piped);
+      st.add("process_files");
+      if (r1 != 0 || r2 != 0) { st.add("process_files_rejected"); continue; }
+      std::string file = slurp(dir + "/o.bin");
+      auto viol = [&](const std::string &k, const std::string &w) { st.violation("process:" + k, 0, Obj().kv("family", "process").kv("file", f.name).kv("source", slurp(f.path).substr(0, 2000)).kv("what", w).str()); };
+      if (r3 != 0) viol("pipe-status", "writing the image to a pipe ends with status " + std::to_string(r3));
+      else if (piped != file) viol("pipe-image-differs", "the image written to a pipe (" + std::to_string(piped.size()) + " bytes) differs from the image written to a regular file (" + std::to_string(file.size()) + " bytes)");
+      auto img = refisa::parseImage(file);
+      std::string what = img.wellFormed ? listing::checkAgainstImage(lst, img.body) : "emitted binary is not a well-formed image";
+      if (!what.empty()) viol("listing:" + listing::classOf(what), what);
+      if (r3 == 0) { auto pimg = refisa::parseImage(piped); std::string w2 = pimg.wellFormed ? listing::checkAgainstImage(lst, pimg.body) : "piped binary is not a well-formed image"; if (!w2.empty()) viol("listing-vs-piped-image:" + listing::classOf(w2), w2); }
+      st.add("process_files_checked");
+    }
+    std::string rm = "rm -rf '" + dir + "'"; if (system(rm.c_str())) {}
+    rep.st.merge(st);
+  }
 #endif
   auto &c = rep.st.c;
-  rep.evaluations = c["programs"] + c["shipped_files"] + c["x_programs"];
+  rep.evaluations = c["programs"] + c["shipped_files"] + c["x_programs"] + c["process_files"];
   rep.states = rep.evaluations; rep.transitions = c["refs_checked"] + c["listing_lines"] + rep.evaluations; rep.validated = c["accepted"];
   rep.nontrivial = c["accepted"] + c["x_programs_accepted"];
   rep.rule = "programs = every sequence of <=N structural items over {label def, PROC, relative ref (BR), absolute ref (LDAC), DATA} with canonical label numbering, every "
